@@ -231,6 +231,21 @@ fn matches_expect(x: &Expect, got: &Option<ErrKind>) -> bool {
     }
 }
 
+/// Right kind (and payload), wrong model name: the report attributes the failure to
+/// another model than the failing one. With a hierarchy involved this is also C16
+/// ("a sub-model is known by the name parent.child in ... error reports").
+fn name_only_mismatch(x: &Expect, got: &Option<ErrKind>) -> bool {
+    match (x, got) {
+        (Expect::Panic { model, payloads }, Some(ErrKind::Panic { model: m, payload })) => {
+            m != model && payloads.contains(payload) && (m.contains('.') || model.contains('.'))
+        }
+        (Expect::NoRecipient(Some(model)), Some(ErrKind::NoRecipient(Some(m)))) => m != model && (m.contains('.') || model.contains('.')),
+        _ => false,
+    }
+}
+
+const C11_C16: &[&str] = &["C11", "C16"];
+
 pub const SIG_SECONDARY: &str = "C11/secondary-send-error-masks-first-failure";
 
 /// signatures listed as `known:` in known_findings.txt
@@ -493,7 +508,7 @@ pub fn eval_fcase(c: &FCase, prop: &str) -> Result<FInfo, Verdict> {
             });
         }
         return Err(ffail(
-            BOTH_C11,
+            if name_only_mismatch(&x0, &init_err) { C11_C16 } else { BOTH_C11 },
             "init-error-classification",
             format!("SimInit::init returned {:?}, expected {:?} (fault {:?})", init_err, x0, c.fault),
         ));
@@ -711,7 +726,7 @@ pub fn eval_fcase(c: &FCase, prop: &str) -> Result<FInfo, Verdict> {
                 });
             }
             return Err(ffail(
-                BOTH_C11,
+                if name_only_mismatch(&x, &err) { C11_C16 } else { BOTH_C11 },
                 "error-classification",
                 format!("command #{} {:?} returned {:?}, expected {:?} (fault {:?})", i - 1, cmd, err, x, c.fault),
             ));
@@ -933,6 +948,7 @@ impl SubCheck for FSub {
                     cl.push("KNOWN C11/secondary-send-error-masks-first-failure");
                 }
                 let nt = match self.prop {
+                    "C16" => i.fault_in_submodel,
                     "C11" => (i.fault_hit.is_some() && i.fault_hit != Some("init") && i.post_calls >= 2) || i.usable_after_nonfatal > 0,
                     _ => i.tokens >= 5 && (i.dropped_failed || i.dropped_with_pending_sched),
                 };
